@@ -3,6 +3,7 @@ mod c03;
 mod c04;
 mod c05;
 mod c06;
+mod c08;
 mod c09;
 mod c10;
 mod c11;
@@ -86,6 +87,10 @@ fn real_main(args: Vec<String>) -> i32 {
             let armed = findings::Armed::from_env();
             match prop.as_str() {
                 "C11" => worker::child_loop(&c11::Set::new(tier, armed), from, to),
+                "C08" => {
+                    let seed = std::env::var("VERIF_SEED").ok().and_then(|s| s.trim().parse::<i64>().ok()).unwrap_or(0) as u64;
+                    worker::child_loop(&*c08::worker_set(&family, tier, seed), from, to)
+                }
                 "C12" => {
                     let seed = std::env::var("VERIF_SEED").ok().and_then(|s| s.trim().parse::<i64>().ok()).unwrap_or(0) as u64;
                     worker::child_loop(&c12::Pairs::new(tier, seed), from, to)
@@ -117,6 +122,7 @@ fn real_main(args: Vec<String>) -> i32 {
                 "C05" => c05::run(&ctx),
                 "C06" => c06::run(&ctx, false),
                 "C07" => c06::run(&ctx, true),
+                "C08" => c08::run(&ctx),
                 "C09" => c09::run(&ctx),
                 "C10" => c10::run(&ctx),
                 "C11" => c11::run(&ctx),
